@@ -115,6 +115,11 @@ def atoms(env):
             A['rho%d' % d] = ref.rand_dm(rng, d)
         A['g'] = rng.normal(size=400)   # generic directions for model lattice points
         A['g2'] = rng.normal(size=400)
+        # (drawn after every older atom so that the older atoms keep their values) generic complex cotangents, 3-qubit unitary
+        for n in (1, 2, 3, 4):
+            A['c%d' % n] = rng.normal(size=2**n) + 1j * rng.normal(size=2**n)
+        A['U3'] = ref.haar_unitary(rng, 8)
+        A['spec1'] = rng.uniform(0.3, 2.0, size=1)
         _ATOMS.clear()
         _ATOMS[key] = A
     return _ATOMS[key]
@@ -220,6 +225,12 @@ def event_list(nq, level):
         ev += [('grover', 'T')]
         ev += [('append', 0, 0), ('append', 0, 1), ('append', 1, 2)]
         return ev
+    if level == 'ext':
+        return ext_event_list(nq)
+    if level == 'ext_s':   # one representative per new provenance / gate kind, for depth 2 in the quick tier
+        return [('P1', 'rx', 0, 'Hi'), ('P1', 'rx', 1, 'Hl'), ('u3', 2, 'Hl'), ('rzz', 2, 0, 'Hi'), ('P1', 'rx', 1, 'Td'), ('P1', 'ry', 2, 'Nf'), ('P1', 'rx', 0, 'Tn'),
+                ('cdouble', (1,), (2, 0)), ('crzz', (0,), (2, 1), 'T'), ('crzz', (2,), (0, 1), 'T'), ('triple', (2, 0, 1)), ('P1', 'rx', 1, 'Hs'),
+                ('append', 0, 0), ('append', 0, 1), ('append', 0, 2)]
     if level == 'tiny':
         return [('P1', 'rx', 1, 'T'), ('P1', 'ry', 0, 'T'), ('P1', 'rx', 0, 'H'), ('P1', 'rx', 1, 'Hs'), ('u3', 1, 'T'), ('CP', 'crx', (0,), 1, 'T'), ('cu3', (1,), 0, 'T'),
                 ('C1', 'cnot', 1, 0), ('grover', 'T'), ('append', 0, 0), ('append', 1, 0), ('append', 1, 1)]
@@ -249,11 +260,45 @@ def event_list(nq, level):
     return ev
 
 
+def ext_event_list(nq):
+    """second alphabet: gate kinds, placeholder forms and requires_grad provenances that the first alphabet does not have, plus a few
+    companions (so that depth 2 shares / re-wires them). Provenances: Hi = positional placeholder circ.P[k]; Hl = leaf placeholder
+    circ.P['name'] (the whole tensor is the argument); Td = requires_grad left to Circuit(default_requires_grad=True); Nf = created trainable,
+    then gate.requires_grad_(False); Tn = trainable with a user-chosen name= ; crzz = user ParameterGate('control', numqi.gate.rzz) on two
+    targets appended with append_gate; cdouble / triple = controlled_double_qubit_gate / triple_qubit_gate"""
+    Q = list(range(nq))
+    ev = []
+    if nq == 3:
+        ev += [('P1', 'rx', q, prov) for q in Q for prov in ('Hi', 'Hl')] + [('P1', 'ry', 0, 'Hi'), ('P1', 'rz', 2, 'Hl')]
+        ev += [('u3', q, 'Hl') for q in Q] + [('rzz', 0, 1, 'Hi'), ('rzz', 2, 0, 'Hi')]
+        ev += [('P1', 'rx', 1, 'Td'), ('P1', 'ry', 2, 'Nf'), ('P1', 'rx', 0, 'Tn'), ('u3', 1, 'Td'), ('CP', 'crx', (2,), 0, 'Td'), ('CP', 'cry', (0,), 2, 'Nf')]
+        for c in Q:
+            rest = [q for q in Q if q != c]
+            for t in (tuple(rest), tuple(rest[::-1])):
+                ev += [('cdouble', (c,), t), ('crzz', (c,), t, 'T')]
+        ev += [('crzz', (1,), (2, 0), 'N')]
+        ev += [('triple', t) for t in itertools.permutations(Q, 3)]
+        ev += [('P1', 'rx', 0, 'T'), ('P1', 'ry', 2, 'H'), ('P1', 'rx', 1, 'Hs'), ('C1', 'cnot', 0, 1), ('CP', 'crx', (0,), 1, 'T')]
+    else:
+        assert nq == 4
+        # control sets giving the reduce_shape_index patterns [N,1,N,1], [1,N,N,1], [1,N,1,N], [N,1,1,N] and the single controls
+        for c in ((1, 3), (0, 3), (0, 2), (1, 2)):
+            rest = [q for q in Q if q not in c]
+            ev += [('CP', 'crx', c, rest[0], 'T'), ('cu3', c, rest[1], 'T'), ('csingle', c, rest[0]), ('cdouble', c, (rest[1], rest[0])), ('crzz', c, (rest[0], rest[1]), 'T')]
+        for c in Q:
+            rest = [q for q in Q if q != c]
+            ev += [('crzz', (c,), (rest[2], rest[0]), 'T'), ('cdouble', (c,), (rest[0], rest[2]))]
+        ev += [('triple', (3, 1, 0)), ('triple', (0, 2, 3)), ('toffoli', (0, 3), 1)]
+        ev += [('P1', 'rx', 3, 'T'), ('P1', 'ry', 0, 'Hi'), ('u3', 2, 'Hl'), ('C1', 'cnot', 3, 0)]
+    ev += [('append', 0, 0), ('append', 0, 1), ('append', 0, 2)]
+    return ev
+
+
 def ev_category(ev):
     k = ev[0]
     if k in ('P1', 'u3', 'rzz'):
         return 'unitary[%s]' % ev[-1]
-    if k in ('CP', 'cu3'):
+    if k in ('CP', 'cu3', 'crzz'):
         return 'control[%s]' % ev[-1]
     if k == 'grover':
         return 'custom[%s]' % ev[-1]
@@ -286,6 +331,8 @@ class Prog:
         self.params = []      # dict(tag, kind 'T'|'H', cat)
         self.hp = []          # param id of the k-th scalar placeholder  (circ.P['p'][k])
         self.hq = []          # [3 param ids] of the k-th u3 placeholder (circ.P['q'][k])
+        self.hi = []          # param id of the k-th positional placeholder (circ.P[k])
+        self.hl = []          # [param ids] of the k-th leaf placeholder    (circ.P['l<k>'])
         self.gates = []       # per top-level event: (gate object, reference op, is_placeholder) or None
         self.n_const = 0
         self.status = 'ok'
@@ -303,11 +350,11 @@ class Prog:
 
     def _args(self, npar, prov, cat):
         """-> (argument for the numqi call, src list, is_placeholder)"""
-        if prov == 'T':
+        if prov in ('T', 'Td', 'Tn'):
             pids = [self._new_param('T', cat) for _ in range(npar)]
             vals = tuple(self.params[p]['tag'] for p in pids)
             return (vals[0] if npar == 1 else vals), [('p', p) for p in pids], False
-        if prov == 'N':
+        if prov in ('N', 'Nf'):
             vals = tuple(self._const() for _ in range(npar))
             return (vals[0] if npar == 1 else vals), [('c', v) for v in vals], False
         if prov == 'H':
@@ -318,12 +365,30 @@ class Prog:
             pids = [self._new_param('H', cat) for _ in range(npar)]
             self.hq.append(pids)
             return self.circ.P['q'][len(self.hq) - 1], [('p', p) for p in pids], True
+        if prov == 'Hi':
+            assert npar == 1
+            pid = self._new_param('H', cat)
+            self.hi.append(pid)
+            return self.circ.P[len(self.hi) - 1], [('p', pid)], True
+        if prov == 'Hl':
+            pids = [self._new_param('H', cat) for _ in range(npar)]
+            self.hl.append(pids)
+            return self.circ.P['l%d' % (len(self.hl) - 1)], [('p', p) for p in pids], True
         if prov == 'Hs':
             if not self.hp:
                 self.status = 'no_previous_placeholder'
                 return None, None, True
             return self.circ.P['p'][len(self.hp) - 1], [('p', self.hp[-1])], True
         raise ValueError(prov)
+
+    @staticmethod
+    def _rgkw(prov, name):
+        """keyword arguments of the gate-creating call for a provenance"""
+        if prov == 'Td':
+            return {}                                   # requires_grad=None -> Circuit.default_requires_grad (True)
+        if prov == 'Tn':
+            return {'requires_grad': True, 'name': 'user_' + name}
+        return {'requires_grad': prov != 'N'}           # Nf: created trainable, frozen afterwards
 
     def add(self, ev):
         circ, A = self.circ, self.A
@@ -334,13 +399,12 @@ class Prog:
             arg, src, ph = self._args(1, ev[3], cat)
             if self.status != 'ok':
                 return
-            rg = ev[3] != 'N'
-            g = getattr(circ, ev[1])(ev[2], arg, requires_grad=rg)
+            g = getattr(circ, ev[1])(ev[2], arg, **self._rgkw(ev[3], ev[1]))
             op = dict(fam=ev[1], src=src, ctl=(), tgt=(ev[2],), cat=cat)
             rec = (g, op, ph)
         elif kind == 'u3':
             arg, src, ph = self._args(3, ev[2], cat)
-            g = circ.u3(ev[1], arg, requires_grad=ev[2] != 'N')
+            g = circ.u3(ev[1], arg, **self._rgkw(ev[2], 'u3'))
             op = dict(fam='u3', src=src, ctl=(), tgt=(ev[1],), cat=cat)
             rec = (g, op, ph)
         elif kind == 'rzz':
@@ -351,7 +415,7 @@ class Prog:
         elif kind == 'CP':
             arg, src, ph = self._args(1, ev[4], cat)
             c = ev[2]
-            g = getattr(circ, ev[1])(c[0] if len(c) == 1 else tuple(c), ev[3], arg, requires_grad=ev[4] != 'N')
+            g = getattr(circ, ev[1])(c[0] if len(c) == 1 else tuple(c), ev[3], arg, **self._rgkw(ev[4], ev[1]))
             op = dict(fam=CFAM[ev[1]], src=src, ctl=tuple(c), tgt=(ev[3],), cat=cat)
             rec = (g, op, ph)
         elif kind == 'cu3':
@@ -380,6 +444,20 @@ class Prog:
             c = ev[1]
             g = circ.controlled_single_qubit_gate(A['V1'].copy(), set(c), ev[2])
             op = dict(fam=None, M=A['V1'], ctl=tuple(c), tgt=(ev[2],), cat=cat)
+            rec = (g, op, False)
+        elif kind == 'cdouble':
+            g = circ.controlled_double_qubit_gate(A['U2'].copy(), set(ev[1]), tuple(ev[2]))
+            op = dict(fam=None, M=A['U2'], ctl=tuple(ev[1]), tgt=tuple(ev[2]), cat=cat)
+            rec = (g, op, False)
+        elif kind == 'triple':
+            g = circ.triple_qubit_gate(A['U3'].copy(), *ev[1])
+            op = dict(fam=None, M=A['U3'], ctl=(), tgt=tuple(ev[1]), cat=cat)
+            rec = (g, op, False)
+        elif kind == 'crzz':
+            arg, src, ph = self._args(1, ev[3], cat)
+            g = self.numqi.sim.ParameterGate('control', self.numqi.gate.rzz, arg, name='user_crzz', requires_grad=ev[3] != 'N')
+            circ.append_gate(g, (set(ev[1]), tuple(ev[2])))
+            op = dict(fam='rzz', src=src, ctl=tuple(ev[1]), tgt=tuple(ev[2]), cat=cat)
             rec = (g, op, False)
         elif kind == 'grover':
             arg, src, ph = self._args(1, ev[1], cat)
@@ -424,6 +502,8 @@ class Prog:
             return
         else:
             raise ValueError(ev)
+        if ev[-1] == 'Nf':
+            rec[0].requires_grad_(False)
         self.ops.append(op)
         self.gates.append(rec)
 
@@ -499,6 +579,12 @@ def make_model(numqi, prog, n, q0_mode, A):
                 self.hp = torch.nn.Parameter(torch.tensor([prog.params[p]['tag'] for p in prog.hp], dtype=torch.float64))
             if prog.hq:
                 self.hq = torch.nn.Parameter(torch.tensor([[prog.params[p]['tag'] for p in row] for row in prog.hq], dtype=torch.float64))
+            if prog.hi:
+                self.hi = torch.nn.Parameter(torch.tensor([prog.params[p]['tag'] for p in prog.hi], dtype=torch.float64))
+            for k, row in enumerate(prog.hl):
+                # the leaf IS the argument: a 0-dim tensor for a one-parameter gate (like the element circ.P['p'][k]), a 3-vector for u3
+                tmp = [prog.params[p]['tag'] for p in row]
+                setattr(self, 'hl%d' % k, torch.nn.Parameter(torch.tensor(tmp[0] if len(tmp) == 1 else tmp, dtype=torch.float64)))
             if q0_mode == 'gen':
                 self.q0p = torch.nn.Parameter(torch.tensor(A['q0p%d' % n].copy(), dtype=torch.float64))
             elif q0_mode == 'fix':
@@ -511,16 +597,25 @@ def make_model(numqi, prog, n, q0_mode, A):
             self.phi = torch.tensor(A['phi%d' % n])
             self.loss_kind = 'O'
 
-        def psi(self):
+        def holders(self, shift=0.0):
             kw = {}
             if prog.hp:
-                kw['p'] = self.hp
+                kw['p'] = self.hp + shift
             if prog.hq:
-                kw['q'] = self.hq
-            if kw:
-                self.w.setP(**kw)
-            q0 = torch.complex(self.q0p[0], self.q0p[1]) if q0_mode == 'gen' else self.q0c.clone()
+                kw['q'] = self.hq + shift
+            for k in range(len(prog.hl)):
+                kw['l%d' % k] = getattr(self, 'hl%d' % k) + shift
+            return ((self.hi + shift,) if prog.hi else ()), kw
+
+        def psi_from(self, q0):
+            args, kw = self.holders()
+            if args or kw:
+                self.w.setP(*args, **kw)
             return self.w(q0)
+
+        def psi(self):
+            q0 = torch.complex(self.q0p[0], self.q0p[1]) if q0_mode == 'gen' else self.q0c.clone()
+            return self.psi_from(q0)
 
         def forward(self):
             psi = self.psi()
@@ -595,7 +690,171 @@ def build_prog(numqi, out, env, hist, count=True):
     return prog
 
 
-def run_history(numqi, out, env, hist, q0_modes, points, jac):
+# ------------------------------------------------------------------------------------------------ cotangent forms / interleaving / input kinds
+# additions whose oracle fires on the pinned tree (reported, numqi repair pending); the guarded oracle is skipped and counted
+PENDING = {'conj_cotangent', 'interleaved_forward', 'real_q0', 'conj_q0', 'unused_parameter', 'noncontig_cotangent_psd'}
+COT_FORMS = ('conj', 'vdot', 'flip', 'slice', 'perm', 'expand')
+INTERLEAVE = ('nograd_forward', 'second_wrapper')
+Q0_KINDS = ('complex128_view', 'real64', 'complex64', 'conj_view')
+
+
+def pending(out, flag):
+    if flag in PENDING:
+        out.count('pending/' + flag)
+        return True
+    return False
+
+
+def cot_form(torch, form, psi, c):
+    """loss = Re(c_eff . psi), written so that the cotangent reaches the hand-written backward in the given memory form -> (loss, c_eff)"""
+    D = len(c)
+    ct = torch.tensor(c)
+    if form == 'conj':    # conjugate bit set on the incoming cotangent
+        return (psi.conj() * ct).sum().real, c.conj()
+    if form == 'vdot':
+        return torch.vdot(psi, ct).real, c.conj()
+    if form == 'flip':
+        return (psi.flip(0) * ct).sum().real, c[::-1].copy()
+    if form == 'slice':   # cotangent of a strided slice
+        ce = np.zeros(D, dtype=np.complex128)
+        ce[1::2] = c[:D // 2]
+        return (psi[1::2] * ct[:D // 2]).sum().real, ce
+    if form == 'perm':    # cotangent of a transposed view
+        return (psi.reshape(2, D // 2).T.reshape(-1) * ct).sum().real, c.reshape(D // 2, 2).T.reshape(-1).copy()
+    if form == 'expand':  # stride-0 (expanded) cotangent
+        return psi.sum().real, np.ones(D, dtype=np.complex128)
+    raise ValueError(form)
+
+
+def _grad_vec(params, pos2):
+    gk = np.concatenate([(v.grad.numpy().reshape(-1) if v.grad is not None else np.zeros(v.numel())) for v in params])
+    return gk[pos2]
+
+
+def run_extras(numqi, out, env, prog, model, n, q0_mode, x, theta, P, J_ref, kap, allcats, det, params, pos2, q0_ref):
+    """point 'gen' only. Oracle: the gradient of Re(c_eff . psi) is Re(c_eff^T J_ref) whatever the memory form of the cotangent, whatever
+    happened between the forward and its backward, and whatever tensor kind carried the initial state"""
+    import torch
+    A = atoms(env)
+    D = 2**n
+    c = A['c%d' % n]
+    c1 = max(1.0, float(np.abs(c).sum()))
+    tol = C_SAFE * EPS * kap * c1     # tol_J (see run_history) times the l1 norm of the cotangent it is contracted with
+    site = 'sim.CircuitTorchWrapper/backward'
+    hl = det['history']
+    cats = '+'.join(sorted(set(allcats))) or 'init_state'
+    ok = True
+
+    def backward_grad(loss):
+        for v in params:
+            v.grad = None
+        loss.backward()
+        return _grad_vec(params, pos2)
+
+    def compare(key, what, g, g_exp, tol_, **extra):
+        if not np.all(np.isfinite(g)) or np.abs(g - g_exp).max() > tol_:
+            j = int(np.argmax(np.nan_to_num(np.abs(g - g_exp), nan=np.inf)))
+            out.violation(key, '%s for history %s, init=%s: component %d delivered %.12g, true %.12g' % (what, hl, q0_mode, j, g[j], g_exp[j]), delivered=g, expected=g_exp, tol=tol_, cotangent=c, **extra, **det)
+            return False
+        return True
+    # ---- (C) memory forms of the cotangent
+    for form in COT_FORMS:
+        if form == 'conj' and pending(out, 'conj_cotangent'):
+            continue
+        out.trans()
+        try:
+            loss, ce = cot_form(torch, form, model.psi(), c)
+            g = backward_grad(loss)
+        except Exception as e:  # noqa
+            out.violation('%s/cotangent[%s]/%s/%s' % (site, form, type(e).__name__, cats), 'backward of the loss form %r for history %s raised %s: %s (at %s)' % (form, hl, type(e).__name__, str(e)[:200], core.exc_site(e)), loss_form=form, **det)
+            ok = False
+            continue
+        ok &= compare('%s/cotangent[%s]/wrong_gradient' % (site, form), 'gradient of the loss form %r' % form, g, (ce @ J_ref).real, tol, loss_form=form)
+        out.outcome(('cot', n, form, np.round(g, 6)), nontrivial=bool(np.abs(g).max() > 1e-9))
+    # ---- (D) something happens between forward(theta) and its backward
+    ct = torch.tensor(c)
+    for inter in INTERLEAVE:
+        if prog.has_custom and pending(out, 'interleaved_forward'):
+            continue
+        out.trans()
+        try:
+            loss = (model.psi() * ct).sum().real
+            with torch.no_grad():
+                if inter == 'nograd_forward':
+                    numqi.optimize.set_model_flat_parameter(model, theta + 1.0)
+                    model.psi()
+                    # torch's own saved tensors alias the parameters: they must hold theta again when the first backward runs
+                    numqi.optimize.set_model_flat_parameter(model, theta)
+                else:
+                    w2 = numqi.sim.CircuitTorchWrapper(prog.circ)
+                    for v in w2.parameters():
+                        v.add_(1.0)
+                    args, kw = model.holders(shift=1.0)
+                    if args or kw:
+                        w2.setP(*args, **kw)
+                    w2(torch.tensor(A['psi%d' % n].copy()))
+            g = backward_grad(loss)
+        except Exception as e:  # noqa
+            out.violation('%s/interleaved[%s]/%s/%s' % (site, inter, type(e).__name__, cats), 'forward(theta), %s at theta+1, backward for history %s raised %s: %s (at %s)' % (inter, hl, type(e).__name__, str(e)[:200], core.exc_site(e)), interleaved=inter, **det)
+            ok = False
+            continue
+        ok &= compare('%s/interleaved[%s]/wrong_gradient/%s' % (site, inter, cats), 'gradient at theta after forward(theta), %s at theta+1, backward' % inter, g, (c @ J_ref).real, tol, interleaved=inter)
+        out.outcome(('inter', n, inter, np.round(g, 6)), nontrivial=bool(np.abs(g).max() > 1e-9))
+    # ---- (E) tensor kind of the initial state (a differentiable input of the wrapper)
+    if q0_mode != 'gen':
+        return ok
+    eps32 = float(np.finfo(np.float32).eps)
+    for kind in Q0_KINDS:
+        if (kind == 'real64' and pending(out, 'real_q0')) or (kind == 'conj_view' and pending(out, 'conj_q0')):
+            continue
+        qv = q0_ref
+        if kind == 'complex128_view':
+            leaf = torch.tensor(np.stack([qv, 1j * qv], axis=1), requires_grad=True)
+            q0 = leaf[:, 0]
+        elif kind == 'real64':
+            qv = np.ascontiguousarray(q0_ref.real).astype(np.complex128)
+            leaf = torch.tensor(qv.real.copy(), requires_grad=True)
+            q0 = leaf
+        elif kind == 'complex64':
+            leaf = torch.tensor(q0_ref.astype(np.complex64), requires_grad=True)
+            qv = leaf.detach().numpy().astype(np.complex128)
+            q0 = leaf
+        else:
+            leaf = torch.tensor(qv.conj(), requires_grad=True)
+            q0 = leaf.conj()
+        out.trans()
+        try:
+            psi_t = model.psi_from(q0)
+            g = backward_grad((psi_t * ct).sum().real)[:P]
+            gq = leaf.grad.numpy().copy() if leaf.grad is not None else None
+        except Exception as e:  # noqa
+            out.violation('sim.CircuitTorchWrapper/initial_state[%s]/%s' % (kind, type(e).__name__), 'forward/backward with a %s initial state for history %s raised %s: %s (at %s)' % (kind, hl, type(e).__name__, str(e)[:200], core.exc_site(e)), q0_kind=kind, **det)
+            ok = False
+            continue
+        psi_k, J_k = ref_forward_jac(prog.ops, n, x, qv, True)
+        v = c @ J_k[:, P:P + D]           # loss = Re(v . q0): torch convention d/dRe + i d/dIm = conj(v); real input: Re v
+        gq_exp = {'complex128_view': np.stack([v.conj(), 0 * v], axis=1), 'real64': v.real, 'complex64': v.conj(), 'conj_view': v}[kind]
+        # complex64: in-place gates (custom oracle) keep the state in the input dtype and the float64 gradient is rounded to the dtype of the
+        # input: every tolerance of this kind is scaled by eps(float32) / eps(float64)
+        r32 = eps32 / EPS if kind == 'complex64' else 1.0
+        if np.abs(psi_t.detach().numpy() - psi_k).max() > C_SAFE * EPS * kap * r32:
+            out.violation('sim.CircuitTorchWrapper/initial_state[%s]/forward_mismatch' % kind, 'forward state for a %s initial state differs from the reference (history %s)' % (kind, hl), q0_kind=kind, **det)
+            ok = False
+            continue
+        if P:
+            ok &= compare('sim.CircuitTorchWrapper/initial_state[%s]/wrong_gradient/%s' % (kind, cats), 'parameter gradient with a %s initial state' % kind, g, (c @ J_k[:, :P]).real, tol * r32, q0_kind=kind)
+        if gq is None or gq.shape != gq_exp.shape:
+            out.violation('sim.CircuitTorchWrapper/initial_state[%s]/no_gradient' % kind, 'no gradient / wrong shape delivered to a %s initial state that requires grad (history %s)' % (kind, hl), q0_kind=kind, **det)
+            ok = False
+            continue
+        tq = tol * r32
+        gq_r, ge_r = real_components(gq, 'c'), real_components(gq_exp, 'c')
+        ok &= compare('sim.CircuitTorchWrapper/initial_state[%s]/wrong_input_gradient' % kind, 'gradient w.r.t. a %s initial state' % kind, gq_r, ge_r, tq, q0_kind=kind)
+        out.outcome(('q0kind', n, kind, np.round(gq_r, 5)), nontrivial=bool(np.abs(gq_r).max() > 1e-9))
+    return ok
+
+
+def run_history(numqi, out, env, hist, q0_modes, points, jac, extras=False):
     import torch
     A = atoms(env)
     hl = hist_json(hist)
@@ -722,12 +981,14 @@ def run_history(numqi, out, env, hist, q0_modes, points, jac):
                                   loss=lk, parameter=int(j), delivered=g_impl, expected=g_ref, tol=tol_g, **det)
                 out.outcome((n, lk, np.round(g_impl, 6)), nontrivial=bool(np.abs(g_impl).max() > 1e-9))
             # ---- (A) full Jacobian through loss.backward(): complete real cotangent basis {Re psi_i, Im psi_i}
+            params = [v for _, v in sorted(model.named_parameters(), key=lambda kv: kv[0])]
+            mine = np.concatenate([v.detach().numpy().reshape(-1) for v in params])
+            pos2 = match_by_value(mine, list(theta[pos]))
+            if pos2 is None and point == 'gen':
+                raise OracleDisagreement('harness: cannot match own flattening')
+            if point == 'gen' and extras:
+                ok_all &= run_extras(numqi, out, env, prog, model, n, q0_mode, x, theta, P, J_ref, kap, allcats, det, params, np.array(pos2), q0_ref)
             if jac:
-                params = [v for _, v in sorted(model.named_parameters(), key=lambda kv: kv[0])]
-                mine = np.concatenate([v.detach().numpy().reshape(-1) for v in params])
-                pos2 = match_by_value(mine, list(theta[pos]))
-                if pos2 is None and point == 'gen':
-                    raise OracleDisagreement('harness: cannot match own flattening')
                 if pos2 is not None:
                     pos2 = np.array(pos2)
                     J_impl = np.zeros((2 * D, NP))
@@ -760,7 +1021,7 @@ def run_prog(case, out, env):
     else:
         hists = ((evs[case['first']],) + tail for tail in itertools.product(evs, repeat=depth - 1))
     for h in hists:
-        run_history(numqi, out, env, h, case['q0'], case['points'], case['jac'])
+        run_history(numqi, out, env, h, case['q0'], case['points'], case['jac'], case.get('extras', False))
     out.sample = {'kind': 'prog', 'nq': case['nq'], 'depth': depth, 'level': case['level'], 'alphabet': len(evs), 'points': case['points'], 'init_states': case['q0'],
                   'example_history': hist_json([evs[case['first'] or 0]] + [evs[-6]] * (depth - 1))}
 
@@ -788,6 +1049,18 @@ def psd_spectra(A, d):
     """name -> (eigenvalues, in_domain)"""
     sp = A['spec%d' % d]
     ret = {'gen': (sp, True)}
+    if d == 1:
+        ret.update({'x1e3': (sp * 1e3, True), 'x1e-3': (sp * 1e-3, True), 'tiny8': (np.array([1e-8]), True), 'rank-1': (np.array([0.0]), False)})
+        return ret
+    # a tiny positive eigenvalue: positive definite, hence inside the domain (the tolerance carries the condition number)
+    for nm, v in (('tiny8', 1e-8), ('tiny12', 1e-12)):
+        e = sp.copy()
+        e[0] = v
+        ret[nm] = (e, True)
+    if d >= 3:   # ... next to an exact zero: rank-deficient, observed only
+        e = sp.copy()
+        e[0], e[1] = 0.0, 1e-8
+        ret['zero+tiny8'] = (e, False)
     e = sp.copy()
     e[1] = e[0]
     ret['deg2' if d > 2 else 'degall'] = (e, True)
@@ -817,7 +1090,7 @@ def psd_spectra(A, d):
 
 def psd_matrix(A, d, field, spec_name, basis):
     ev, dom = psd_spectra(A, d)[spec_name]
-    if basis == 'eye':
+    if basis == 'eye' or d == 1:
         U = np.eye(d)
     else:
         U = A[('U' if basis == 'U' else 'W') + field + str(d)]
@@ -975,11 +1248,35 @@ def run_psd_frame(case, out, env):
     out.sample = {'kind': 'psd_frame', 'function': fun_name(fun), 'd': d, 'field': field}
 
 
+PSD_COT_FORMS = ('mat_T', 'mat_first', 'batch_swap', 'batch_mat_mix', 'slice', 'conj', 'expand')
+
+
+def psd_cot_form(form, v, nbatch):
+    """the same view operation for a torch tensor and a numpy array (numpy: a writable view); None if the form needs more batch axes"""
+    nd = nbatch + 2
+    is_np = isinstance(v, np.ndarray)
+    perm = (lambda *a: v.transpose(*a)) if is_np else (lambda *a: v.permute(*a))
+    if form == 'mat_T':
+        return perm(*range(nbatch), nd - 1, nd - 2)
+    if form == 'mat_first':
+        return perm(nd - 2, nd - 1, *range(nbatch)) if nbatch >= 1 else None
+    if form == 'batch_swap':
+        return perm(1, 0, 2, 3) if nbatch == 2 else None
+    if form == 'batch_mat_mix':
+        return perm(0, 2, 1, 3) if nbatch == 2 else None
+    if form == 'slice':
+        return v[..., ::2, 1:]
+    raise ValueError(form)
+
+
 def run_psd(case, out, env):
     import numqi
     import torch
     A = atoms(env)
     d, field, fun = case['d'], case['field'], tuple(case['fun'])
+    f32 = case.get('dtype') == 'f32'
+    # input dtype float32 / complex64: every tolerance below is the float64 one with eps(float32) in place of eps(float64)
+    eps = float(np.finfo(np.float32).eps) if f32 else EPS
     B = herm_basis(d, field)
     nB = len(B)
     fn = impl_psd_fun(numqi, fun)
@@ -996,11 +1293,14 @@ def run_psd(case, out, env):
             conds.append(ev.max() / max(ev.min(), 1e-300))
         nb = len(mats)
         A0 = np.stack(mats).reshape(shape + (d, d))
-        det = dict(function=fun_name(fun), args=list(fun[1:]), d=d, field=field, batch_shape=list(shape), spectra=[e[0] for e in elems], bases=[e[1] for e in elems], input=A0)
+        det = dict(function=fun_name(fun), args=list(fun[1:]), d=d, field=field, batch_shape=list(shape), spectra=[e[0] for e in elems], bases=[e[1] for e in elems], input=A0,
+                   dtype='float32' if f32 else 'float64')
         out.state()
         t = torch.zeros(nb, nB, dtype=torch.float64, requires_grad=True)
         Bt = torch.tensor(np.stack(B))
         At = torch.tensor(A0) + torch.einsum('bk,kij->bij', t.to(Bt.dtype), Bt).reshape(shape + (d, d))
+        if f32:
+            At = At.to(torch.complex64 if field == 'c' else torch.float32)
         try:
             val = fn(At)
             comp = (torch.view_as_real(val) if field == 'c' else val).reshape(-1)
@@ -1021,7 +1321,7 @@ def run_psd(case, out, env):
             out.count('outside_math_domain_gradient_finite' if np.all(np.isfinite(J_impl)) else 'outside_math_domain_gradient_nonfinite')
             out.outcome(('outside', fun, d, field, bool(np.all(np.isfinite(J_impl)))), nontrivial=False)
             continue
-        val_np = val.detach().numpy().reshape(nb, d, d)
+        val_np = val.detach().numpy().astype(np.complex128).reshape(nb, d, d)
         ncomp = (2 if field == 'c' else 1) * d * d
         J_ref = np.zeros((nb * ncomp, nb * nB))
         val_ref = np.zeros((nb, d, d), dtype=np.complex128)
@@ -1035,35 +1335,46 @@ def run_psd(case, out, env):
         # 2^(s-1) * (T - 1) with T = A^(1/2^s) -> 1, i.e. amplifies absolute errors of T by 2^s.
         kap = d * d * max(conds) * (2**s_rep if fun[0] == 'logm' else 1.0)
         Jmax = max(1.0, float(np.abs(J_ref).max()))
-        tol = C_SAFE * EPS * kap * Jmax
+        tol = C_SAFE * eps * kap * Jmax
         vmax = max(1.0, float(np.abs(val_ref).max()))
-        if np.abs(val_np - val_ref).max() > C_SAFE * EPS * kap * vmax:
+        if not np.all(np.isfinite(J_impl)):
+            out.violation(site + '/backward/nonfinite/' + '+'.join(sorted({e[0] for e in elems})), '%s backward returns NaN/Inf on a positive definite input' % fun_name(fun), delivered=J_impl, **det)
+            continue
+        if C_SAFE * eps * kap >= 0.1:
+            # a wrong rule changes the Jacobian by O(|J|_max); a derived tolerance of >= 0.1 |J|_max cannot separate that from rounding:
+            # only finiteness was decided (tiny eigenvalue 1e-12; Pade logarithm of a float32 input)
+            out.count('skipped_ill_conditioned[c*eps*kappa >= 0.1]')
+            out.outcome(('undecided', fun, d, field, f32), nontrivial=False)
+            continue
+        if np.abs(val_np - val_ref).max() > C_SAFE * eps * kap * vmax:
             out.violation(site + '/forward/mismatch', '%s forward differs from the reference by %.3g' % (fun_name(fun), np.abs(val_np - val_ref).max()), observed=val_np, expected=val_ref, **det)
             continue
         # guard: central differences of the implementation's own forward along every basis direction
         scale = min(float(np.abs(m).max()) for m in mats)
         h = 1e-5 * scale
-        J_fd = np.zeros_like(J_ref)
-        with torch.no_grad():
-            for b in range(nb):
-                for k in range(nB):
-                    dA = np.zeros((nb, d, d), dtype=A0.dtype)
-                    dA[b] = B[k]
-                    dA = dA.reshape(A0.shape)
-                    vp = fn(torch.tensor(A0 + h * dA)).numpy()
-                    vm = fn(torch.tensor(A0 - h * dA)).numpy()
-                    J_fd[:, b * nB + k] = real_components((vp - vm) / (2 * h), field)
-        # truncation h^2/6 |f'''(lambda)| |dA|^3: f''' = 2 / lambda^3 (log), 3/8 lambda^(-5/2) (square root; higher roots are smaller),
-        # 2 d^(3/2) covers the non-commutative divided differences; rounding eps kappa |f| / h
         lam_min = min(float(np.linalg.eigvalsh(m)[0]) for m in mats)
-        k3 = 2 * d**1.5 * max(lam_min**-3.0, lam_min**-2.5)
-        tol_fd = (h * h / 6) * k3 + C_SAFE * EPS * kap * vmax / h
-        if np.abs(J_fd - J_ref).max() > tol_fd:
-            raise OracleDisagreement('C04 psd: analytic reference and finite differences of an agreeing forward differ: %s d=%d %s %s err=%.3g tol=%.3g'
-                                     % (fun, d, field, elems, np.abs(J_fd - J_ref).max(), tol_fd))
-        if not np.all(np.isfinite(J_impl)):
-            out.violation(site + '/backward/nonfinite/' + '+'.join(sorted({e[0] for e in elems})), '%s backward returns NaN/Inf on a positive definite input' % fun_name(fun), delivered=J_impl, **det)
-            continue
+        J_fd = np.full_like(J_ref, np.nan)
+        if f32 or h >= lam_min / 100:
+            # the guard validates the REFERENCE; float32 forwards are too coarse for it (the same reference is guarded in the float64 case)
+            # and a step that is not small against the smallest eigenvalue leaves the PSD cone
+            out.count('fd_guard_not_applicable[%s]' % ('float32' if f32 else 'step >= lambda_min/100'))
+        else:
+            with torch.no_grad():
+                for b in range(nb):
+                    for k in range(nB):
+                        dA = np.zeros((nb, d, d), dtype=A0.dtype)
+                        dA[b] = B[k]
+                        dA = dA.reshape(A0.shape)
+                        vp = fn(torch.tensor(A0 + h * dA)).numpy()
+                        vm = fn(torch.tensor(A0 - h * dA)).numpy()
+                        J_fd[:, b * nB + k] = real_components((vp - vm) / (2 * h), field)
+            # truncation h^2/6 |f'''(lambda)| |dA|^3: f''' = 2 / lambda^3 (log), 3/8 lambda^(-5/2) (square root; higher roots are smaller),
+            # 2 d^(3/2) covers the non-commutative divided differences; rounding eps kappa |f| / h
+            k3 = 2 * d**1.5 * max(lam_min**-3.0, lam_min**-2.5)
+            tol_fd = (h * h / 6) * k3 + C_SAFE * EPS * kap * vmax / h
+            if np.abs(J_fd - J_ref).max() > tol_fd:
+                raise OracleDisagreement('C04 psd: analytic reference and finite differences of an agreeing forward differ: %s d=%d %s %s err=%.3g tol=%.3g'
+                                         % (fun, d, field, elems, np.abs(J_fd - J_ref).max(), tol_fd))
         err = np.abs(J_impl - J_ref)
         if err.max() > tol:
             k, j = np.unravel_index(np.argmax(err), err.shape)
@@ -1073,13 +1384,60 @@ def run_psd(case, out, env):
                           '%s%s: d out[%d] / d (direction %d) delivered %.12g, true %.12g, finite difference %.12g (d=%d %s, batch %s, spectra %s)'
                           % (fun_name(fun), tuple(fun[1:]), k, j, J_impl[k, j], J_ref[k, j], J_fd[k, j], d, field, shape, [e[0] for e in elems]),
                           delivered=J_impl, expected=J_ref, tol=tol, **det)
-        out.outcome((fun, d, field, np.round(J_impl, 5)), nontrivial=bool(np.abs(J_impl).max() > 1e-9))
+        out.outcome((fun, d, field, f32, np.round(J_impl, 5)), nontrivial=bool(np.abs(J_impl).max() > 1e-9))
+        # ---- memory forms of the cotangent: the output is permuted / transposed / sliced / conjugated before a generic linear loss.
+        # The backward is linear in the cotangent: the gradient must be the same contraction of the basis Jacobian delivered above.
+        nv = nb * d * d
+        W = ((A['g'][:nv] + 1j * A['g2'][:nv]) if field == 'c' else A['g'][:nv].astype(np.float64)).reshape(shape + (d, d))
+        for form in PSD_COT_FORMS:
+            Wfull = np.zeros_like(W)
+            if form == 'conj':
+                if field != 'c':
+                    continue
+                lossf = lambda v_: (v_.conj() * torch.tensor(W)).sum().real  # noqa
+                Wfull = W.conj()
+            elif form == 'expand':
+                lossf = lambda v_: v_.sum().real if field == 'c' else v_.sum()  # noqa
+                Wfull[...] = 1
+            else:
+                view = psd_cot_form(form, Wfull, len(shape))
+                if view is None or view.size == 0:
+                    continue
+                Wv = np.ascontiguousarray(psd_cot_form(form, W, len(shape)))
+                view[...] = Wv
+                lossf = lambda v_: ((psd_cot_form(form, v_, len(shape)) * torch.tensor(Wv)).sum().real if field == 'c' else (psd_cot_form(form, v_, len(shape)) * torch.tensor(Wv)).sum())  # noqa
+            if form in ('batch_swap', 'batch_mat_mix') and fun[0] != 'logm' and pending(out, 'noncontig_cotangent_psd'):
+                continue
+            out.trans()
+            # loss = Re sum(val * Wfull) = sum_k w_k comp_k with w = real components of conj(Wfull)
+            w_eff = real_components(Wfull.conj(), field)
+            try:
+                g, = torch.autograd.grad(lossf(val), t, retain_graph=True)
+            except Exception as e:  # noqa
+                out.violation('%s/backward/cotangent[%s]/%s' % (site, form, type(e).__name__), '%s: backward of a %s output raised %s: %s' % (fun_name(fun), form, type(e).__name__, str(e)[:200]), cotangent_form=form, **det)
+                continue
+            g = g.numpy().reshape(-1)
+            g_exp = w_eff @ J_impl
+            tol_c = tol * max(1.0, float(np.abs(w_eff).sum()))
+            if not np.all(np.isfinite(g)) or np.abs(g - g_exp).max() > tol_c:
+                out.violation('%s/backward/cotangent[%s]/wrong_gradient' % (site, form), '%s: the gradient of a linear loss of the %s output differs from the same contraction of the basis Jacobian by %.3g'
+                              % (fun_name(fun), form, np.abs(g - g_exp).max()), cotangent_form=form, delivered=g, expected=g_exp, tol=tol_c, **det)
+            out.outcome(('cot', fun, d, field, form, np.round(g, 5)), nontrivial=bool(np.abs(g).max() > 1e-9))
         out.trace()
-    out.sample = {'kind': 'psd', 'function': fun_name(fun), 'args': list(fun[1:]), 'd': d, 'field': field, 'batches': case['batches'][:2]}
+    out.sample = {'kind': 'psd', 'function': fun_name(fun), 'args': list(fun[1:]), 'd': d, 'field': field, 'batches': case['batches'][:2], 'dtype': 'float32' if f32 else 'float64'}
 
 
-def psd_batches(d, tier):
-    names = ['gen', 'deg2' if d > 2 else 'degall', 'near', 'x1e3', 'x1e-3', 'rank-1']
+def psd_batches(d, tier, f32=False):
+    if d == 1:
+        single = [[[], [[nm, 'eye']]] for nm in (('gen', 'x1e3') if f32 else ('gen', 'x1e3', 'x1e-3', 'tiny8', 'rank-1'))]
+        return single + [[[2], [['gen', 'eye'], ['x1e3', 'eye']]], [[2, 2], [['gen', 'eye'], ['x1e3', 'eye'], ['x1e-3', 'eye'], ['gen', 'eye']]]]
+    dg = 'deg2' if d > 2 else 'degall'
+    if f32:
+        return [[[], [['gen', 'U']]], [[], [[dg, 'U']]], [[], [['near', 'W']]], [[], [['x1e3', 'eye']]], [[2], [['gen', 'U'], [dg, 'W']]],
+                [[2, 2], [['gen', 'U'], [dg, 'W'], ['near', 'U'], ['x1e3', 'W']]]]
+    names = ['gen', 'deg2' if d > 2 else 'degall', 'near', 'x1e3', 'x1e-3', 'rank-1', 'tiny8', 'tiny12']
+    if d >= 3:
+        names += ['zero+tiny8']
     if d >= 3:
         names += ['deg3' if d > 3 else 'degall', 'rank-2']
     if d >= 4:
@@ -1097,6 +1455,9 @@ def kl_sequences(n):
     tuples = [t for k in (1, 2) for t in itertools.permutations(range(n), k)]
     seqs = [[(t, 'A')] for t in tuples]
     seqs += [[(t1, 'A'), (t2, 'B')] for t1 in tuples for t2 in tuples]
+    # the empty sequence (E = identity) and sequences of length 3 (every ordered pair wiring in the middle, fixed outer operators)
+    seqs += [[]]
+    seqs += [[((0,), 'A'), (t2, 'B'), ((n - 1, 0), 'A')] for t2 in tuples]
     return seqs
 
 
@@ -1153,7 +1514,8 @@ def run_kl(case, out, env):
     # tolerance c*eps*kappa: <= 2 gate applications (4 terms each) + one contraction over 2^n terms, magnitudes ||E||_2 ||q||^2
     opn = max(float(np.linalg.norm(W, 2)) for W in E)
     qn = float(np.linalg.norm(q_np))
-    tol = C_SAFE * EPS * (8 + D) * max(1.0, opn) * max(1.0, qn * qn)
+    # (sequences of length 3: 3 applications)
+    tol = C_SAFE * EPS * (max(8, 4 * max(len(s_) for s_ in seqs)) + D) * max(1.0, opn) * max(1.0, qn * qn)
     vn = val.detach().numpy()
     if vn.shape != val_ref.shape or np.abs(vn - val_ref).max() > tol or np.abs(np.asarray(val_numpy_path) - val_ref).max() > tol:
         out.violation(site + '/forward/mismatch', 'knill_laflamme_inner_product forward (torch / numpy path) differs from <q_a|E|q_b>', observed=vn, expected=val_ref, **det)
@@ -1162,11 +1524,36 @@ def run_kl(case, out, env):
     if not np.all(np.isfinite(J_impl)) or err.max() > tol:
         k, j = np.unravel_index(np.argmax(np.nan_to_num(err, nan=np.inf)), err.shape)
         e_ = k // (K * K * 2)
-        cls = 'one_op' if len(seqs[e_]) == 1 else 'two_ops'
+        cls = {0: 'no_op', 1: 'one_op', 2: 'two_ops', 3: 'three_ops'}[len(seqs[e_])]
         out.violation('%s/backward/wrong_gradient/%s' % (site, cls),
                       'knill_laflamme_inner_product backward: d out[%d] / d q[%d] delivered %.12g, true %.12g for the sequence %s (n=%d, logical dim %d)'
                       % (k, j, J_impl[k, j], J_ref[k, j], [(list(t), nm) for t, nm in seqs[e_]], n, K), delivered=J_impl, expected=J_ref, tol=tol, **det)
     out.outcome((n, K, case['lo'], np.round(J_impl, 5)), nontrivial=bool(np.abs(J_impl).max() > 1e-9))
+    # ---- memory forms of the cotangent (the backward is linear in it): same contraction of the basis Jacobian delivered above
+    nv = len(E) * K * K
+    W = (A['g'][:nv] + 1j * A['g2'][:nv]).reshape(len(E), K, K)
+    Wt = torch.tensor(W)
+    forms = {'conj': (lambda v_: (v_.conj() * Wt).sum().real, W.conj()),                                    # conjugate bit set
+             'transpose': (lambda v_: (v_.transpose(1, 2) * Wt).sum().real, W.transpose(0, 2, 1)),            # non-contiguous
+             'flip_ops': (lambda v_: (v_.flip(0) * Wt).sum().real, W[::-1]),
+             'expand': (lambda v_: v_.sum().real, np.ones_like(W))}
+    for form, (lossf, Wfull) in forms.items():
+        if form == 'conj' and pending(out, 'conj_cotangent'):
+            continue
+        out.trans()
+        w_eff = real_components(np.conj(Wfull), 'c')      # loss = Re sum(val * Wfull)
+        try:
+            g, = torch.autograd.grad(lossf(val), tq, retain_graph=True)
+        except Exception as e:  # noqa
+            out.violation('%s/backward/cotangent[%s]/%s' % (site, form, type(e).__name__), 'backward of a %s output raised %s: %s' % (form, type(e).__name__, str(e)[:200]), cotangent_form=form, **det)
+            continue
+        g = g.numpy().reshape(-1)
+        g_exp = w_eff @ J_impl
+        tol_c = tol * max(1.0, float(np.abs(w_eff).sum()))
+        if not np.all(np.isfinite(g)) or np.abs(g - g_exp).max() > tol_c:
+            out.violation('%s/backward/cotangent[%s]/wrong_gradient' % (site, form), 'the gradient of a linear loss of the %s output differs from the same contraction of the basis Jacobian by %.3g' % (form, np.abs(g - g_exp).max()),
+                          cotangent_form=form, delivered=g, expected=g_exp, tol=tol_c, **det)
+        out.outcome(('cot', n, K, case['lo'], form, np.round(g, 5)), nontrivial=bool(np.abs(g).max() > 1e-9))
     out.trace()
     out.sample = {'kind': 'kl', 'n': n, 'logical_dim': K, 'sequences': det['sequences'][:3]}
 
@@ -1563,15 +1950,16 @@ def prepare(env):
 
 def _prog_cases(cfg, info):
     cases = []
-    for nq, level, depth, q0, points, jac in cfg:
+    for nq, level, depth, q0, points, jac, *rest in cfg:
+        extras = bool(rest and rest[0])
         evs = event_list(nq, level)
-        info.append({'nq': nq, 'alphabet': level, 'events': len(evs), 'depth': depth, 'histories': len(evs)**depth, 'init_states': q0, 'points': points, 'full_jacobian': jac})
+        info.append({'nq': nq, 'alphabet': level, 'events': len(evs), 'depth': depth, 'histories': len(evs)**depth, 'init_states': q0, 'points': points, 'full_jacobian': jac, 'cotangent_forms_interleaving_input_kinds': extras})
         if depth == 1:
             for lo in range(0, len(evs), 12):
-                cases.append({'kind': 'prog', 'nq': nq, 'level': level, 'depth': 1, 'first': None, 'lo': lo, 'hi': min(lo + 12, len(evs)), 'q0': q0, 'points': points, 'jac': jac})
+                cases.append({'kind': 'prog', 'nq': nq, 'level': level, 'depth': 1, 'first': None, 'lo': lo, 'hi': min(lo + 12, len(evs)), 'q0': q0, 'points': points, 'jac': jac, 'extras': extras})
         else:
             for i in range(len(evs)):
-                cases.append({'kind': 'prog', 'nq': nq, 'level': level, 'depth': depth, 'first': i, 'q0': q0, 'points': points, 'jac': jac})
+                cases.append({'kind': 'prog', 'nq': nq, 'level': level, 'depth': depth, 'first': i, 'q0': q0, 'points': points, 'jac': jac, 'extras': extras})
     return cases
 
 
@@ -1581,18 +1969,31 @@ def build_cases(tier, seed):
     info['programs'] = []
     allp = ['gen', 'zero', 'pi2']
     if quick:
-        cfg = [(3, 'full', 1, ['zero', 'fix', 'gen'], allp, True), (3, 'medium', 2, ['fix'], ['gen'], False), (2, 'tiny', 3, ['fix'], ['gen'], False)]
+        cfg = [(3, 'full', 1, ['zero', 'fix', 'gen'], allp, True, True), (3, 'medium', 2, ['fix'], ['gen'], False), (2, 'tiny', 3, ['fix'], ['gen'], False),
+               (2, 'tiny', 2, ['fix', 'gen'], ['gen'], False, True),
+               (3, 'ext', 1, ['zero', 'fix', 'gen'], allp, True, True), (4, 'ext', 1, ['zero', 'fix', 'gen'], allp, True, True), (3, 'ext_s', 2, ['fix'], ['gen'], False, True)]
     else:
-        cfg = [(3, 'full', 1, ['zero', 'fix', 'gen'], allp, True), (3, 'full', 2, ['zero', 'fix'], allp, False), (3, 'full', 2, ['gen'], ['gen'], False),
-               (2, 'tiny', 3, ['zero', 'fix', 'gen'], allp, False), (3, 'reduced', 3, ['fix'], ['gen'], False)]
+        cfg = [(3, 'full', 1, ['zero', 'fix', 'gen'], allp, True, True), (3, 'full', 2, ['zero', 'fix'], allp, False), (3, 'full', 2, ['gen'], ['gen'], False, True),
+               (2, 'tiny', 3, ['zero', 'fix', 'gen'], allp, False, True), (3, 'reduced', 3, ['fix'], ['gen'], False),
+               (3, 'ext', 1, ['zero', 'fix', 'gen'], allp, True, True), (4, 'ext', 1, ['zero', 'fix', 'gen'], allp, True, True),
+               (3, 'ext', 2, ['zero', 'fix', 'gen'], allp, False, True), (4, 'ext', 2, ['fix', 'gen'], ['gen'], False, True)]
     cases += _prog_cases(cfg, info['programs'])
     funs = [('sqrtm',), ('repeat', 1), ('repeat', 2), ('repeat', 3)]
     funs += [('logm', 6, 8), ('logm', 4, 6)] if quick else [('logm', ns, m) for ns in (4, 5, 6) for m in (6, 8)]
-    info['psd'] = {'functions': [list(f) for f in funs], 'd': [2, 3, 4], 'fields': ['c', 'r'], 'batches_per_config': {d: len(psd_batches(d, tier)) for d in (2, 3, 4)}}
+    info['psd'] = {'functions': [list(f) for f in funs], 'd': [1, 2, 3, 4], 'fields': ['c', 'r'], 'batches_per_config': {d: len(psd_batches(d, tier)) for d in (1, 2, 3, 4)},
+                   'cotangent_forms': list(PSD_COT_FORMS)}
     for fun in funs:
-        for d in (2, 3, 4):
+        for d in (1, 2, 3, 4):
             for field in ('c', 'r'):
                 cases.append({'kind': 'psd', 'fun': list(fun), 'd': d, 'field': field, 'batches': psd_batches(d, tier)})
+    # float32 / complex64 inputs (tolerances with eps(float32))
+    funs32 = [('sqrtm',), ('repeat', 2), ('logm', 4, 6)] if quick else funs
+    d32 = (2, 3) if quick else (1, 2, 3, 4)
+    info['psd_float32'] = {'functions': [list(f) for f in funs32], 'd': list(d32), 'fields': ['c', 'r'], 'batches_per_config': {d: len(psd_batches(d, tier, True)) for d in d32}}
+    for fun in funs32:
+        for d in d32:
+            for field in ('c', 'r'):
+                cases.append({'kind': 'psd', 'fun': list(fun), 'd': d, 'field': field, 'dtype': 'f32', 'batches': psd_batches(d, tier, True)})
     # rank-deficient PSD inputs reached through a frame: A = X X^dagger with X of shape (d, r), r < d. The composite X -> f(X X^dagger)
     # is differentiable (f(A) = X (X^dagger X)^p X^dagger) although f itself is not differentiable at the zero eigenvalues.
     for fun in [('sqrtm',), ('repeat', 1), ('repeat', 2), ('repeat', 3)]:
